@@ -177,10 +177,19 @@ func genCase(t *rapid.T) harness.Case {
 
 const rule = "raw-HTML-heavy inputs (comments incl. <!-->, <!--->, --!>, CDATA, declarations, processing instructions, stray '<', mixed-case names, attributes containing '>', raw-text elements; 60%), G1/G2/G3 (20%), sink templates (20%) x predicates {GFM, reject-all, reject-none, generated name set that contains the nine raw-text elements} x 2 soft-break behaviours; oracle = filtered output aligns with the unfiltered one under '<' -> '&lt;' only, reject-none is the identity, and x/net/html's tokenizer sees no start tag with a rejected name in the filtered output; non-trivial = the tokenizer sees a rejected start tag in the unfiltered output (the filter had work to do)"
 
-func TestProperty(t *testing.T) {
-	harness.Run(t, harness.Plan{Prop: "C17", Suppress: findings.Suppressor("C17"), Checks: []harness.Check{
+func plan() harness.Plan {
+		return harness.Plan{Prop: "C17", Suppress: findings.Suppressor("C17"), Checks: []harness.Check{
 		{Name: "filter", Quick: 80000, Thorough: 1000000, Gen: genCase, Prop: prop, Rule: rule},
-	}})
+	}}
+}
+
+func TestProperty(t *testing.T) {
+	harness.Run(t, plan())
+}
+
+// FuzzProperty is the native coverage-guided fuzz entry (thorough tier).
+func FuzzProperty(f *testing.F) {
+	harness.FuzzTarget(f, plan(), "filter", gen.SeedCorpus())
 }
 
 func min(a, b int) int {
